@@ -233,6 +233,7 @@ def run(ctx, out, tier):
     asyncval.check_sibling_selectors(ctx, out, rule="C19.siblings")
     shared.sh_err(ctx, out, ctx.validator_bodies(NAME) + [b for b in ctx.reachable_bodies() if b.id.startswith("blockwatch::validators::run") or "check_ai" in b.id], floor=25)
     shared.sh_state(ctx, out, NAME)
+    shared.sh_merge(ctx, out, ctx.reachable_bodies())
     return meta()
 
 
